@@ -2,6 +2,7 @@ package gen
 
 import (
 	"math"
+	"strconv"
 	"strings"
 
 	"pgregory.net/rapid"
@@ -52,6 +53,11 @@ func (p *Profile) literal(t *rapid.T) *Node {
 			n.Raw = "0X" + strings.ToUpper(hexText(n.I)[2:])
 		case 3:
 			n.Raw = "0x" + strings.ToUpper(hexText(n.I)[2:])
+		case 4:
+			// a leading zero: the digits are octal
+			if n.I > 0 {
+				n.Raw = "0" + strconv.FormatInt(n.I, 8)
+			}
 		}
 		return n
 	case 2:
